@@ -1,6 +1,7 @@
 """Property oracles: each checks ONE property on the real pamqp with an expectation written
 independently of pamqp (ocommon.norm / refenc / spec_tables).  They double as the failing-input
 search: a returned violation carries a replay dict that `replay()` can re-run."""
+import contextlib
 import datetime
 import decimal
 import itertools
@@ -24,8 +25,10 @@ def replayer(fn):
 
 def catching(fn, *a, **kw):
     real.tick_logging()
+    # the ambient decimal context applies to calls INTO the library, not to the harness's own case functions
+    amb = real.ambient() if str(getattr(fn, '__module__', '') or '').startswith('pamqp') else contextlib.nullcontext()
     try:
-        with real.deadline(8):
+        with real.deadline(8), amb:
             return ('ok', fn(*a, **kw))
     except real.Hang:
         real.note_hang('%s%r' % (getattr(fn, '__name__', fn), a)[:400], fn, a)
@@ -3124,10 +3127,11 @@ def replay(rep):
     if fn is None:
         return ('replayable case', 'no replayer for %r' % rep.get('fn'))
     args = pyeval(rep['args'])
-    old = real.LOGMODE
+    old = real.LOGMODE, real.DECMODE
     real.LOGMODE = rep.get('logging', 'default')
+    real.DECMODE = rep.get('decimal_context', 'default')
     try:
         return fn(*args)
     finally:
-        real.LOGMODE = old
+        real.LOGMODE, real.DECMODE = old
         real.tick_logging()
